@@ -437,6 +437,7 @@ package syncer
 //@   set got = got + 1 after recv errChan
 //@   set nonNil = nonNil + ite(recv != nil, 1, 0) after recv errChan
 //@   assert at call setCheckpoint: all_workers_succeeded: nonNil == 0 && got == cap(errChan)
+//@   assert after store replayed: the_replay_counts_as_applied_only_when_no_worker_failed: !replayed || (nonNil == 0 && got > 0)
 //   invalidated  1 once the resume position stored on the target has been withdrawn in this call
 //@   ghost var invalidated mathint = 0
 //@   set invalidated = ite(result == nil, 1, 0) after call invalidateCheckpoint
@@ -455,6 +456,18 @@ func SpecFnv(key []byte) uint32 { panic("abstract spec function") }
 //@   trusted library-like hash (abstract: SpecFnv)
 //@   modifies nothing
 //@   ensures value: h == SpecFnv(key)
+// The completion report (deferred): "done" and 100 % are reported only when every worker finished
+// without an error, not as soon as the parser reached the end marker.
+//@ func metric.Gauge.Set(self, v, labels)
+//@   trusted frame: a metric
+//@   modifies nothing
+//@ func RedisOutput.sendRdb$2
+//@   arith int
+//@   properties C04
+//@   replay syncer_failedReplayReportedDone
+//@   modifies heap
+//@   assert at call Set: a_replay_that_failed_is_not_reported_as_complete: replayed
+
 //@ func RedisOutput.sendRdb$distributeTask
 //@   arith int
 //@   properties C04 C20 C03
